@@ -87,41 +87,47 @@ Theorem C14_agreed_digest_unique : forall n t skip H toolong byz, 3 * t < n -> 0
 Proof. exact dbar_agree_run. Qed.
 Print Assumptions C14_agreed_digest_unique.
 
-(* AGREEMENT: no two honest parties deliver different values for the same (ID, sender, s).  Premise "not retrieved": the two
-   parties did not ask for this slot through the out-of-order handler (l-retrieve; only sent on FIFO channels with
-   fifo_skip = 0 when a later slot of the sender was accepted first) -- hence `_partial` *)
-Theorem C14_agreement_partial : forall n t skip H toolong byz, 3 * t < n -> 0 <= t ->
+(* AGREEMENT: no two honest parties deliver different values for the same (ID, sender, s) -- every slot, including slots a
+   party fetched through the out-of-order handler (l-retrieve / l-deliver) *)
+Theorem C14_agreement : forall n t skip H toolong byz, 3 * t < n -> 0 <= t ->
   forall B, Z.of_nat (length B) <= t -> (forall l, byz l = true -> In l B) ->
   (forall m, H m <> 0) -> (forall a b, H a = H b -> a = b) ->
   forall es p q tg v v',
     In (p, tg, v) (glog (grun n t skip H toolong byz es)) -> In (q, tg, v') (glog (grun n t skip H toolong byz es)) ->
-    ~ retrieved (gp (grun n t skip H toolong byz es) p) tg -> ~ retrieved (gp (grun n t skip H toolong byz es) q) tg ->
     v = v'.
 Proof. exact agreement. Qed.
-Print Assumptions C14_agreement_partial.
+Print Assumptions C14_agreement.
 
 (* INTEGRITY: a slot (id, j, s) of a non-faulty sender j is delivered only with a value v that j passed to Broadcast: the
    schedule contains that Broadcast call, and the r-send (id, j, s, v) is among the messages it sent *)
-Theorem C14_integrity_partial : forall n t skip H toolong byz, 3 * t < n -> 0 <= t ->
+Theorem C14_integrity : forall n t skip H toolong byz, 3 * t < n -> 0 <= t ->
   forall B, Z.of_nat (length B) <= t -> (forall l, byz l = true -> In l B) ->
   (forall m, H m <> 0) -> (forall a b, H a = H b -> a = b) ->
   forall es p id j s v,
-    In (p, (id, j, s), v) (glog (grun n t skip H toolong byz es)) ->
-    ~ retrieved (gp (grun n t skip H toolong byz es) p) (id, j, s) -> byz j = false ->
+    In (p, (id, j, s), v) (glog (grun n t skip H toolong byz es)) -> byz j = false ->
     exists es1 coin es2 dst, es = es1 ++ EBcast j v coin :: es2 /\
       In (dst, Msg id j s 1 v) (snd (broadcast n j (gp (grun n t skip H toolong byz es1) j) v coin)).
 Proof. exact integrity. Qed.
-Print Assumptions C14_integrity_partial.
+Print Assumptions C14_integrity.
 
-(* the same two statements without assuming an injective hash: equal digests *)
-Theorem C14_agreement_digest_partial : forall n t skip H toolong byz, 3 * t < n -> 0 <= t ->
+(* the same without assuming an injective hash: equal digests *)
+Theorem C14_agreement_digest : forall n t skip H toolong byz, 3 * t < n -> 0 <= t ->
   forall B, Z.of_nat (length B) <= t -> (forall l, byz l = true -> In l B) -> (forall m, H m <> 0) ->
   forall es p q tg v v',
     In (p, tg, v) (glog (grun n t skip H toolong byz es)) -> In (q, tg, v') (glog (grun n t skip H toolong byz es)) ->
-    ~ retrieved (gp (grun n t skip H toolong byz es) p) tg -> ~ retrieved (gp (grun n t skip H toolong byz es) q) tg ->
     H v = H v'.
-Proof. exact agreement_digest. Qed.
-Print Assumptions C14_agreement_digest_partial.
+Proof. exact agreement_digest_full. Qed.
+Print Assumptions C14_agreement_digest.
+
+(* values handed out by DeliverFrom are Deliver deliveries of the same party on the same channel, hence agree too *)
+Theorem C14_agreement_deliverfrom : forall n t skip H toolong byz, 3 * t < n -> 0 <= t ->
+  forall B, Z.of_nat (length B) <= t -> (forall l, byz l = true -> In l B) ->
+  (forall m, H m <> 0) -> (forall a b, H a = H b -> a = b) ->
+  forall es p q c i v v' s,
+    In (p, c, i, v) (gapi (grun n t skip H toolong byz es)) -> In (q, (c, i, s), v') (glog (grun n t skip H toolong byz es)) ->
+    exists s', In (p, (c, i, s'), v) (glog (grun n t skip H toolong byz es)) /\ (s' = s -> v = v').
+Proof. exact agreement_deliverfrom. Qed.
+Print Assumptions C14_agreement_deliverfrom.
 
 (* r-send messages of an honest party exist only because of its own Broadcast calls (nobody can make it "send" a value) *)
 Theorem C14_rsend_only_by_broadcast : forall n t skip H toolong byz es j dst m,
@@ -158,13 +164,10 @@ Example C14_nonvacuous_full_run :
 Proof. exact full_run_log. Qed.
 Example C14_nonvacuous_agreement_premises :
   3 * 1 < 4 /\ (forall m, Hodd m <> 0) /\ (forall a b, Hodd a = Hodd b -> a = b) /\
-  In (1, (0, 0, 1), 42) (glog full_run) /\ In (3, (0, 0, 1), 42) (glog full_run) /\
-  ~ retrieved (gp full_run 1) (0, 0, 1) /\ ~ retrieved (gp full_run 3) (0, 0, 1).
+  In (1, (0, 0, 1), 42) (glog full_run) /\ In (3, (0, 0, 1), 42) (glog full_run).
 Proof.
   split; [lia|]. split; [exact Hodd_nonzero|]. split; [exact Hodd_inj|]. rewrite full_run_log.
-  split; [cbn; auto|]. split; [cbn; auto 6|].
-  split; [exact (full_run_not_retrieved 1 (or_intror (or_introl eq_refl)))|
-          exact (full_run_not_retrieved 3 (or_intror (or_intror (or_intror (or_introl eq_refl)))))].
+  split; [cbn; auto|cbn; auto 6].
 Qed.
 Example C14_nonvacuous_integrity_instance :
   exists es1 coin es2 dst, full_events = es1 ++ EBcast 0 42 coin :: es2 /\
@@ -174,8 +177,6 @@ Proof.
   assert (Bs : Z.of_nat (length (@nil Z)) <= 1) by (cbn; lia).
   assert (Bb : forall l : Z, (fun _ : Z => false) l = true -> In l []) by discriminate.
   assert (P1 : In (2, (0, 0, 1), 42) (glog full_run)) by (rewrite full_run_log; cbn; auto).
-  assert (P2 : ~ retrieved (gp full_run 2) (0, 0, 1))
-    by exact (full_run_not_retrieved 2 (or_intror (or_intror (or_introl eq_refl)))).
-  exact (C14_integrity_partial 4 1 0 Hodd (fun _ _ => false) (fun _ => false) N3 T0 [] Bs Bb Hodd_nonzero Hodd_inj
-           full_events 2 0 0 1 42 P1 P2 eq_refl).
+  exact (C14_integrity 4 1 0 Hodd (fun _ _ => false) (fun _ => false) N3 T0 [] Bs Bb Hodd_nonzero Hodd_inj
+           full_events 2 0 0 1 42 P1 eq_refl).
 Qed.
